@@ -1,4 +1,5 @@
 import Beetswap.Model.Text
+import Driver.NodeIO
 open Beetswap
 
 def splitAt (bs : List Nat) (cuts : List Nat) : List (List Nat) :=
@@ -11,8 +12,11 @@ def splitAt (bs : List Nat) (cuts : List Nat) : List (List Nat) :=
 def showEnd : Frame.End → String
   | .eof => "eof" | .err => "err" | .overrun => "overrun"
 
-def step (line : String) : String :=
-  match (line.dropEndWhile (· == '\n')).toString.splitOn " " with
+structure DState where
+  node : Node.State := {}
+
+def stepPure (toks : List String) : String :=
+  match toks with
   | ["dec", h] =>
     match Text.unhex h with
     | none => "bad-op"
@@ -47,11 +51,25 @@ def step (line : String) : String :=
     | _, _ => "bad-op"
   | _ => "bad-op"
 
-partial def loop (h : IO.FS.Stream) (out : IO.FS.Stream) : IO Unit := do
+
+def step (st : DState) (line : String) : DState × String :=
+  match (line.dropEndWhile (· == '\n')).toString.splitOn " " with
+  | ["n", "reset", sdh] => ({ st with node := { client := { sdh := sdh == "1" } } }, "ok")
+  | "n" :: toks =>
+    match Driver.NodeIO.parseOp toks st.node.now with
+    | none => (st, "bad-op")
+    | some op =>
+      let (node, outs, q) := Node.step st.node op
+      let qs := match q with | some q => s!"q={q} " | none => ""
+      ({ st with node := node }, s!"{qs}{Driver.NodeIO.showOuts outs} ## {Driver.NodeIO.showState node}")
+  | toks => (st, stepPure toks)
+
+partial def loop (h : IO.FS.Stream) (out : IO.FS.Stream) (st : DState) : IO Unit := do
   let line ← h.getLine
   if line.isEmpty then return ()
-  out.putStrLn (step line)
-  loop h out
+  let (st, o) := step st line
+  out.putStrLn o
+  loop h out st
 
 def main : IO Unit := do
-  loop (← IO.getStdin) (← IO.getStdout)
+  loop (← IO.getStdin) (← IO.getStdout) {}
